@@ -223,6 +223,7 @@ def literal_corpus(tier, seed):
     for k, w in enumerate(["été".encode(), b"kg", b"s1", "É".encode(), b"Kk", "ǆ".encode()]):
         defs.append(corpus.mk("mixb%d" % k, [corpus.tok(w, icase=True, prio=9), corpus.rx("[a-z0-9]+", prio=1)], tags=["literal"]))
         defs.append(corpus.mk("mixbp%d" % k, [corpus.tok(w, prio=9), corpus.rx("[a-z0-9]+", prio=1)], tags=["literal"]))
+    defs += sub_icase_defs()
     # regex / skip with ignore(case)
     for k, p in enumerate(["ab+c", "[a-f]x", "straße", "ǆ+", "k|σ", "\\x41b"]):
         defs.append(corpus.mk("icrx%d" % k, [corpus.rx(p, icase=True, prio=5), corpus.rx("[a-zA-Z]+", prio=1)], tags=["literal"]))
@@ -235,6 +236,17 @@ def check_C10(tier, seed, rest):
     r = engine_a(tier, seed, "lit", literal_corpus(tier, seed))
     v = [as_violation(f) for f in r["findings"] if f["kind"] in ("munch", "err_span", "eoi", "crash", "partial_wrong")]
     finish("C10", tier, seed, "model_checking", a_coverage(r, {"rule": "literal corpus: #[token] literals over regex metacharacters, cased non-ASCII, arbitrary bytes, with and without ignore(case), in token/regex/skip position; reference = hand-built byte chain, or per-character simple case folding; then Attempt.tla + replay"}), v, t0, ASSUME_A)
+
+
+def sub_icase_defs():
+    """ignore(case) on a regex / skip that references subpatterns: the flag covers the referenced text like text written in place"""
+    out = []
+    for k, (body, user) in enumerate([("select|from", "(?&s0)"), ("ab", "x(?&s0)y"), ("é|k", "(?&s0)+;"), ("[a-c]x", "q(?&s0)"), ("(?-i:ab)c", "(?&s0)d")]):
+        out.append(corpus.mk("subic%d" % k, [corpus.rx(user, prio=9, greedy=True, icase=True), corpus.rx("[a-zA-Z;]", prio=1)], subs=[("s0", body)], tags=["sub"]))
+        out.append(corpus.mk("subics%d" % k, [corpus.rx("[0-9]+", prio=1)], [corpus.skip(user, prio=9, icase=True)], subs=[("s0", body)], tags=["sub"]))
+    out.append(corpus.mk("subicn", [corpus.rx("(?&s1)", prio=9, icase=True), corpus.rx("[a-zA-Z]", prio=1)], subs=[("s0", "ab"), ("s1", "(?&s0)c|d")], tags=["sub"]))
+    out.append(corpus.mk("subicb", [corpus.rx(b"(?&s0)z", prio=9, icase=True), corpus.rx(b"[a-zA-Z]", prio=1)], subs=[("s0", b"ab")], utf8=False, tags=["sub"]))
+    return out
 
 
 def sub_corpus(tier, seed):
@@ -264,6 +276,7 @@ def sub_corpus(tier, seed):
                               subs=[("s0", body), ("s1", {"(?x)q (?&s1)": "(?&s0) z", "(?i)q(?&s1)": "(?&s0)z", "q(?&s1)": "(?s)(?&s0)z"}[user])], tags=["sub"]))
     for k, (body, user) in enumerate([(b"a b", b"(?x)x (?&s0) y"), (b"ab", b"(?i)x(?&s0)")]):
         defs.append(corpus.mk("subflagb%d" % k, [corpus.rx(user, prio=9, greedy=True), corpus.rx(b"[a-zA-Z ]", prio=1)], subs=[("s0", body)], utf8=False, tags=["sub"]))
+    defs += sub_icase_defs()
     n = 25 if tier == "quick" else 300
     for k in range(n):
         subs = [("s0", rng.choice(bodies))]
